@@ -6,7 +6,7 @@ import ast
 import string
 import z3
 
-from .values import (PyRaise, Abort, Unsupported, Impure, SOpt, FinStr, SStr, OpaqueStr,
+from .values import (PyRaise, Abort, Unsupported, Impure, SOpt, FinStr, SStr, OpaqueStr, UTerm, Tok,
                      EnumMember, SEnum, Obj, FuncVal, ClassVal, Prop, ClassMethod, StaticMethod,
                      BoundMethod, Builtin, ExtType, ModVal, SuperProxy, is_z3, is_symbolic)
 from .logic import And, Or, Not, If, Eq, Div, Mod
@@ -295,6 +295,8 @@ class Interp:
             return T_FLOAT
         if isinstance(v, (str, FinStr, SStr, OpaqueStr, GroupVal, TStr)):
             return T_STR
+        if isinstance(v, UTerm):
+            return {"str": T_STR, "list": T_LIST, "set": T_SET}.get(v.sort, ExtType("object"))
         if isinstance(v, tuple):
             return T_TUPLE
         if isinstance(v, list):
@@ -361,6 +363,10 @@ class Interp:
             return Or(both_none, And(Not(an), Not(bn), self.eq(av, bv)))
         if a is None or b is None:
             return a is None and b is None
+        if isinstance(a, UTerm) or isinstance(b, UTerm):
+            if isinstance(a, UTerm) and a.same(b):
+                return True
+            raise Unsupported("== on abstract text")
         if isinstance(a, TStr) or isinstance(b, TStr):
             t, o = (a, b) if isinstance(a, TStr) else (b, a)
             if isinstance(o, str):
@@ -455,18 +461,15 @@ class Interp:
         if isinstance(a, DT) and isinstance(b, DT):
             return models.dt_compare(op, a, b)
         if isinstance(a, (tuple, list)) and isinstance(b, (tuple, list)):
-            from spec import calendar as cal
-            aa = [self.unwrap(x) for x in a]
-            bb = [self.unwrap(x) for x in b]
-            if len(aa) != len(bb):
-                raise Unsupported("ordering tuples of different length")
-            if op == "<":
-                return cal.lex_lt(aa, bb)
-            if op == "<=":
-                return cal.lex_le(aa, bb)
-            if op == ">":
-                return cal.lex_lt(bb, aa)
-            return cal.lex_le(bb, aa)
+            # CPython: find the first position where the elements differ (==), then order those
+            if type(a) != type(b):
+                raise PyRaise("TypeError", "'%s' not supported between tuple and list" % op)
+            n = min(len(a), len(b))
+            for i in range(n):
+                if self.branch(self.truthy(self.eq(a[i], b[i]))):
+                    continue
+                return self.order(op, a[i], b[i])
+            return {"<": len(a) < len(b), "<=": len(a) <= len(b), ">": len(a) > len(b), ">=": len(a) >= len(b)}[op]
         num = lambda x: isinstance(x, (int, float)) or (is_z3(x) and (z3.is_int(x) or z3.is_real(x)))
         if num(a) and num(b):
             if op == "<":
@@ -651,6 +654,8 @@ class Interp:
                     return default
                 raise PyRaise("AttributeError", "'%s' object has no attribute '%s'" % (v.cls.name, name))
             return self.bind(v, m)
+        if isinstance(v, Tok):
+            raise Unsupported("attribute %s of opaque token %s" % (name, v.name))
         if isinstance(v, SuperProxy):
             mro = v.obj.cls.mro()
             i = mro.index(v.after_cls)
@@ -674,7 +679,17 @@ class Interp:
         if isinstance(v, ModVal):
             if name in v.attrs:
                 return v.attrs[name]
+            if getattr(v, "opaque", False):
+                return Builtin(v.name + "." + name, lambda it, a, k, _n=v.name + "." + name: UTerm(_n, list(a) + [(kk, vv) for kk, vv in sorted(k.items())]))
             raise Unsupported("module attribute %s.%s" % (v.name, name))
+        if isinstance(v, UTerm):
+            if v.sort in ("str", "any"):
+                return Builtin("str." + name, lambda it, a, k, _n=name: UTerm("str." + _n, [v] + list(a)))
+            if v.sort == "list":
+                if name in ("append", "extend", "sort", "pop", "insert", "remove", "clear", "reverse"):
+                    raise Unsupported("mutation of an abstract list")
+                return Builtin("list." + name, lambda it, a, k, _n=name: UTerm("list." + _n, [v] + list(a)))
+            raise Unsupported("attribute %s of abstract value" % name)
         if isinstance(v, EnumMember):
             if name == "value":
                 return v.value
@@ -799,6 +814,8 @@ class Interp:
         if isinstance(s, str):
             if name == "format":
                 return self.str_format(s, args, kwargs)
+            if name == "join" and isinstance(args[0], UTerm):
+                return UTerm("str.join", [s, args[0]])
             if name == "join":
                 items = self.iterate(args[0])
                 if all(isinstance(x, str) for x in items):
@@ -931,11 +948,11 @@ class Interp:
             if kind in "dfeEgG%xXobn" or kind.isdigit():
                 return OpaqueStr("num")
             raise PyRaise("ValueError", "Unknown format code")
-        if isinstance(v, (FinStr, SStr, OpaqueStr, GroupVal)):
+        if isinstance(v, (FinStr, SStr, OpaqueStr, GroupVal, TStr)) or (isinstance(v, UTerm) and v.sort == "str"):
             if spec[-1:] in "dfeEgG%xXobn":
                 raise PyRaise("ValueError", "Unknown format code for str")
             return OpaqueStr("str")
-        if isinstance(v, (Obj, tuple, list, dict)):
+        if isinstance(v, (Obj, tuple, list, dict, UTerm, Tok)):
             raise PyRaise("TypeError", "unsupported format string passed to %s.__format__" % self.typeof(v))
         raise Unsupported("format of %r with spec %r" % (type(v).__name__, spec))
 
@@ -963,6 +980,10 @@ class Interp:
             return OpaqueStr("str(sym)")
         if isinstance(v, TStr):
             return v
+        if isinstance(v, UTerm):
+            return v if v.sort == "str" else OpaqueStr("str(abstract)")
+        if isinstance(v, Tok):
+            return OpaqueStr("str(token)")
         if isinstance(v, Obj):
             m, _ = v.cls.lookup("__str__")
             if m is None:
@@ -1014,12 +1035,34 @@ class Interp:
                 except (IndexError, ValueError) as e:
                     raise PyRaise(type(e).__name__, str(e))
             if name == "sort":
-                raise Unsupported("list.sort in executor")
+                self.list_sort(c, kwargs.get("key"), kwargs.get("reverse", False))
+                return None
         if isinstance(c, tuple) and name in ("index", "count"):
             return getattr(c, name)(*args)
         if isinstance(c, set) and name in ("add",):
             return getattr(c, name)(*args)
         raise Unsupported("%s.%s" % (type(c).__name__, name))
+
+    def list_sort(self, lst, key, reverse):
+        """list.sort: stable insertion sort on a list of known length; symbolic comparisons fork"""
+        if reverse not in (False, True):
+            raise Unsupported("symbolic reverse flag")
+        if id(lst) in self.world.global_container_ids:
+            self.events.append(("frame", "sort of a module-level list", self.cur_line))
+        items = [(self.call(key, [x], {}) if key is not None else x, x) for x in lst]
+        out = []
+        for k, x in items:
+            pos = len(out)
+            while pos > 0:
+                kp = out[pos - 1][0]
+                # move left while the new key is strictly smaller (stable); reverse: strictly greater
+                lt = self.truthy(self.order("<", kp, k) if reverse else self.order("<", k, kp))
+                if self.branch(lt):
+                    pos -= 1
+                else:
+                    break
+            out.insert(pos, (k, x))
+        lst[:] = [x for k, x in out]
 
     # ------------------------------------------------------------------ subscripts
     def dict_lookup(self, d, key, default=None):
@@ -1134,6 +1177,8 @@ class Interp:
         if isinstance(f, SOpt):
             f = self.unwrap(f, "TypeError", "'NoneType' object is not callable")
         if isinstance(f, Builtin):
+            if f.name in ("list", "set", "sorted", "tuple", "reversed") and args and isinstance(args[0], UTerm):
+                return UTerm(f.name, list(args))
             return f.fn(self, list(args), dict(kwargs))
         if isinstance(f, BoundMethod):
             return self._call(f.func, [f.self_] + list(args), kwargs)
@@ -1145,6 +1190,8 @@ class Interp:
         if isinstance(f, ClassVal):
             return self.instantiate(f, args, kwargs)
         if isinstance(f, ExtType):
+            if f.name in ("list", "set", "tuple") and args and isinstance(args[0], UTerm):
+                return UTerm(f.name, list(args))
             if f.fn is not None:
                 return f.fn(self, list(args), dict(kwargs))
             raise Unsupported("call of type %s" % f.name)
@@ -1681,6 +1728,13 @@ class Interp:
         self.cur_line = getattr(e, "lineno", self.cur_line)
         return self.call(f, args, kwargs)
 
+    def try_abstract_source(self, node, fr):
+        if isinstance(node, ast.Name):
+            v, ok = fr.lookup(node.id)
+            if ok and isinstance(v, UTerm) and v.sort == "list":
+                return v
+        return None
+
     def comp_iter(self, gens, fr, body):
         def rec(i, f2):
             if i == len(gens):
@@ -1701,7 +1755,44 @@ class Interp:
         f2.func = fr.func
         rec(0, f2)
 
+    def abstract_comp(self, e, fr):
+        """[elt for x in <abstract list> if conds]: an order-preserving map/filter, kept as a term"""
+        if len(e.generators) != 1:
+            return None
+        g = e.generators[0]
+        src = self.eval(g.iter, fr)
+        if not (isinstance(src, UTerm) and src.sort == "list"):
+            return None, src
+        f2 = Frame(fr.func, fr)
+        x = UTerm("elem", [src], "str")
+        self.assign(g.target, x, f2)
+        conds = []
+        for c in g.ifs:
+            b = self.abstract_bool(c, f2)
+            if b is True:
+                continue
+            conds.append(b)
+        elt = self.eval(e.elt, f2)
+        if elt is x and not conds:
+            return src, src          # identity map without filter
+        return UTerm("comp", [src, elt, tuple(conds)], "list"), src
+
+    def abstract_bool(self, c, fr):
+        """condition over abstract text, as a term (no truth value is computed)"""
+        if isinstance(c, ast.Compare) and len(c.ops) == 1 and isinstance(c.ops[0], (ast.In, ast.NotIn)):
+            l, r = self.eval(c.left, fr), self.eval(c.comparators[0], fr)
+            if isinstance(r, (list, tuple)) and len(r) == 0:
+                return isinstance(c.ops[0], ast.NotIn)
+            return UTerm("notin" if isinstance(c.ops[0], ast.NotIn) else "in", [l, r], "bool")
+        return UTerm("cond", [ast.dump(c)], "bool")
+
     def e_ListComp(self, e, fr):
+        if len(e.generators) == 1:
+            # peek: is the source an abstract list?
+            probe = self.try_abstract_source(e.generators[0].iter, fr)
+            if probe is not None:
+                r = self.abstract_comp(e, fr)
+                return r[0]
         out = []
         self.comp_iter(e.generators, fr, lambda f2: out.append(self.eval(e.elt, f2)))
         return out
